@@ -508,4 +508,15 @@ pub fn run(r: &mut Runner) {
         }
         Ok(())
     });
+    if !r.quick() || r.replay.is_some() {
+        let mut seeds: Vec<Vec<u8>> = Vec::new();
+        for i in 0..200u64 {
+            let p = r.seed_case("policy-seeds", i, 512, |c| gen_policy(c));
+            seeds.push(serde_json::to_vec(&p).unwrap());
+        }
+        for (p, s) in [("a*c", "abbc"), ("a?c", "aéc"), ("*", ""), ("arn:aws:s3:::b/*", "arn:aws:s3:::b/k"), ("**a", "ba"), ("?*?", "xy")] {
+            seeds.push(format!("{p}\n{s}").into_bytes());
+        }
+        r.fuzz("policy_json", r.fuzz_runs(3_000_000), 1024, &seeds);
+    }
 }
